@@ -3,22 +3,41 @@
 package ingest
 
 import (
+	"diagonal.works/b6"
 	"github.com/golang/geo/s1"
 	"github.com/golang/geo/s2"
 )
 
-// C10: lat/lng point ids at the E7 integer level. The float side
-// (Angle.E7 rounding) is outside the claim: lat/lng are built from E7
-// integers and the id must reproduce those integers.
+// C10: lat/lng point IDs. The real NewLatLngID and LatLngFromID are executed
+// with the two E7 halves as symbolic int32s. The float side is not sent to the
+// solver: s1.Angle(i)*s1.E7 is carried as "the float made from integer i" and
+// (s1.Angle).E7 gives i back (engine/floatint.go; natively these are ordinary
+// float operations, compared with the engine on seeded values every run).
+//
+//vh:assume[C10] (s1.Angle).E7 inverts s1.Angle(i)*s1.E7 exactly for every int32 i, and that map is injective (library contract; float arithmetic is not sent to the solver)
 func VH_C10_LatLngID() {
 	latE7 := vI32("lat")
 	lngE7 := vI32("lng")
-	// the packing itself, as written in NewLatLngID
-	id := (uint64(uint32(latE7)) << 32) | uint64(uint32(lngE7))
+	ll := s2.LatLng{Lat: s1.Angle(latE7) * s1.E7, Lng: s1.Angle(lngE7) * s1.E7}
+	id := NewLatLngID(ll)
+	vAssert(id.Type == b6.FeatureTypePoint && id.Namespace == b6.NamespaceLatLng, "NewLatLngID: type and namespace")
+	back, ok := LatLngFromID(id)
 	vReach("latlng-id")
-	lat2 := int32((id >> 32) & ((1 << 32) - 1))
-	lng2 := int32(id & uint64((1<<32)-1))
-	vAssert(lat2 == latE7 && lng2 == lngE7, "bit packing of the two E7 halves is invertible")
-	_ = s1.E7
-	_ = s2.LatLng{}
+	vAssert(ok, "LatLngFromID accepts a lat/lng id")
+	vAssert(back.Lat.E7() == latE7, "latitude survives NewLatLngID/LatLngFromID")
+	vAssert(back.Lng.E7() == lngE7, "longitude survives NewLatLngID/LatLngFromID")
+	vObsI64("lat", int64(back.Lat.E7()))
+	vObsI64("lng", int64(back.Lng.E7()))
+	// onto: every 64-bit id value is the id of the lat/lng it decodes to
+	v := vU64("id")
+	ll2, ok2 := LatLngFromID(b6.FeatureID{Type: b6.FeatureTypePoint, Namespace: b6.NamespaceLatLng, Value: v})
+	vAssert(ok2, "LatLngFromID accepts any value in the lat/lng namespace")
+	id2 := NewLatLngID(ll2)
+	vAssert(id2.Value == v, "NewLatLngID(LatLngFromID(id)) == id")
+	// distinct lat/lngs get distinct ids
+	lat3, lng3 := vI32("lat"), vI32("lng")
+	id3 := NewLatLngID(s2.LatLng{Lat: s1.Angle(lat3) * s1.E7, Lng: s1.Angle(lng3) * s1.E7})
+	if id3.Value == id.Value {
+		vAssert(lat3 == latE7 && lng3 == lngE7, "distinct lat/lngs get distinct ids")
+	}
 }
